@@ -322,8 +322,9 @@ def _order_eig_policy(ctx):
     return P(model_overwrite=True, overwrite_table=_OW['tab'])
 
 
-@scenario('C06', 'routines', lambda tier: [{'routine': r, 'rank': k, 'then': q} for r in ROUTINES for k in (2, 1) for q in ('ortho_left()', 'ortho_right()')])
-def routines(ctx, routine, rank, then):
+@scenario('C06', 'routines', lambda tier: [{'routine': r, 'rank': k, 'then': q, 'order': o} for o in ((2,) if tier == 'quick' else (2, 3)) for r in ROUTINES for k in (2, 1)
+                                         for q in ('ortho_left()', 'ortho_right()')])
+def routines(ctx, routine, rank, then, order=2):
     """one call of a solver / integrator / data-driven routine, then one in-place operation on each returned train: every argument and every other
     returned train keeps value and metadata; every returned train is consistent"""
     TT = ctx.R.TT
@@ -331,10 +332,10 @@ def routines(ctx, routine, rank, then):
     if ctx.mode == 'tv':
         from symtt.core import SkipTV
         raise SkipTV()
-    dims = [2, 2]
-    sA = {'rows': dims, 'cols': dims, 'ranks': [1, 1, 1]}
-    sx = {'rows': dims, 'cols': [1, 1], 'ranks': [1, rank, 1]}
-    sy = {'rows': dims, 'cols': [1, 1], 'ranks': [1, 3 if routine == 'ode.hod previous_value' else rank, 1]}
+    dims = [2] * order
+    sA = {'rows': dims, 'cols': dims, 'ranks': [1] * (order + 1)}
+    sx = {'rows': dims, 'cols': [1] * order, 'ranks': [1] + [rank] * (order - 1) + [1]}
+    sy = {'rows': dims, 'cols': [1] * order, 'ranks': [1] + [3 if routine == 'ode.hod previous_value' else rank] * (order - 1) + [1]}
 
     def body():
         from .C15 import _funcs
@@ -427,7 +428,7 @@ def routines(ctx, routine, rank, then):
         elif routine == 'regression.arr':
             data = ctx.input('data', (1, 2), False)
             yd = ctx.input('ydata', (1, 2), False)
-            phi = [_funcs(ctx, R.transform, 1, ['const', 'id']), _funcs(ctx, R.transform, 1, ['id', 'mono2'])]
+            phi = [_funcs(ctx, R.transform, 1, ['const', 'id']), _funcs(ctx, R.transform, 1, ['id', 'mono2']), _funcs(ctx, R.transform, 1, ['const', 'mono2'])][:order]
             outs = R.regression.arr(data, yd, phi, x, repeats=1, progress=False)
             args = {'x': x}
         elif routine == 'regression.mandy_cm':
